@@ -41,10 +41,10 @@ Proof.
 Qed.
 
 Lemma gen_tlv_payload_eq data l : gen_tlv_payload data l = slice 2 (N.to_nat l + 1) data.
-Proof. unfold gen_tlv_payload. rewrite py_slice_slice. f_equal; lia. Qed.
+Proof. unfold gen_tlv_payload. py_arith. Qed.
 
 Lemma gen_tlv_rest_eq data l : gen_tlv_rest data l = skipn (N.to_nat l + 1) data.
-Proof. unfold gen_tlv_rest. py_unfold. f_equal; lia. Qed.
+Proof. unfold gen_tlv_rest. py_arith. Qed.
 
 (** [length - 1] and [2 + length - 1] stay non-negative for every length byte >= 1 (for a zero
     length byte Python computes -1 where the translation truncates to 0: the two tests and
